@@ -158,8 +158,8 @@ PROPS = {
     'C19': dict(
         modules=['Resonate.Properties.C19'],
         tie_filter=r'^$',
-        harness=[dict(bin='routesend', name='routesend', quick=['-cases', '1500'], thorough=['-cases', '40000'], search=['-cases', '10000'])],
-        rule='routesend: cases = routing tag (23 plain strings / URLs incl. odd schemes, escapes, IPv6, spaces, markup; 30 JSON values of every shape: receiver objects with and without data, '
+        harness=[dict(bin='routesend', name='routesend', quick=['-cases', '2000'], thorough=['-cases', '40000'], search=['-cases', '10000'])],
+        rule='routesend: the WHOLE cross product of addresses x target tables x plugin sets (1400 cases) runs first on every tier, then random draws; cases = routing tag (23 plain strings / URLs incl. odd schemes, escapes, IPv6, spaces, markup; 30 JSON values of every shape: receiver objects with and without data, '
              'null data, unknown / case-variant / duplicate keys, non-string type, arrays, numbers, literals, invalid numbers, trailing commas) or raw stored bytes (16 shapes incl. null) '
              'x 5 target tables (none, default overridden, a target whose NAME is a URL, duplicate names, unknown plugin type) x 6 plugin sets x {invoke, resume, notify} x transport answer '
              '{success, failure, error, queue full}; the REAL router worker decides and marshals, the REAL SenderWorker.Process (verif hook) resolves and hands to capturing transports; '
